@@ -1485,6 +1485,19 @@ func runCase(c Case) (res runResult) {
 		if o.Moved != "" {
 			res.stats["reregistration:"+o.Moved+"/"+code]++
 		}
+		if o.K == "deregent" {
+			owns := false
+			for _, n := range before.Nodes {
+				owns = owns || n.Ent == o.Txs
+			}
+			if owns && before.EntReg[o.Txs] {
+				lst := "lists_them"
+				if len(before.Ents[o.Txs]) == 0 {
+					lst = "empty_list"
+				}
+				res.stats["misc:deregister_while_owning_nodes_"+lst+"/"+code]++
+			}
+		}
 		if o.K == "regrt" {
 			kind := "new"
 			if b := before.Rts[o.Runtime.ID]; b != nil {
@@ -1949,7 +1962,41 @@ func genTx(r *prng.R) Case {
 		switch {
 		case x < 10:
 			c.Ops = append(c.Ops, regEnt(r.Range(1, nEnts)))
-		case x < 15:
+		case x < 13:
+			// an entity UPDATE that empties / shrinks / replaces the node list while nodes of the
+			// entity are still registered (live, or expired and held), usually followed by its deregistration
+			var owners []int
+			for _, id := range nodeIDs {
+				if nd := sh.nodes[id]; nd != nil && !contains(owners, nd.Ent) {
+					owners = append(owners, nd.Ent)
+				}
+			}
+			e := r.Range(1, nEnts)
+			if len(owners) > 0 && r.Chance(85) {
+				e = pick(r, owners)
+			}
+			var l []int
+			switch y := r.Intn(100); {
+			case y < 50: // empty
+			case y < 75: // only nodes that are not registered
+				for _, id := range nodeIDs {
+					if nd := sh.nodes[id]; nd == nil || nd.Ent != e {
+						l = append(l, id)
+					}
+				}
+			default: // drop one registered node
+				for _, id := range entLists[e] {
+					if len(l) > 0 || sh.nodes[id] == nil {
+						l = append(l, id)
+					}
+				}
+			}
+			c.Ops = append(c.Ops, Op{K: "regent", Txs: e, Ent: e, Nodes: l, DSigner: e, SigOK: true, Moved: "shrink_list"})
+			entLists[e] = l
+			if r.Chance(70) {
+				c.Ops = append(c.Ops, Op{K: "deregent", Txs: e, Moved: "after_shrink"})
+			}
+		case x < 16:
 			t := r.Range(1, nEnts)
 			if r.Chance(10) {
 				t = r.Range(1, poolSize)
@@ -2255,6 +2302,10 @@ func fixedCases() []Case {
 		// entity -> runtime governance; afterwards only the runtime itself may update; back is forbidden
 		{Layer: "tx", Ops: []Op{ent, rtop(2, 1, 1, 1, 1), rtop(2, 1, 1, 1, 2), rtop(2, 1, 1, 1, 2), rtop(3, 1, 2, 1, 2), rtop(3, 1, 2, 1, 1),
 			rtop(7, 3, 1, 2, 2), rtop(2, 3, 1, 2, 1), rtop(2, 2, 1, 1, 3)}},
+		// the entity empties its node list while its node is registered (live, then expired and held):
+		// deregistration must stay refused until the node is removed
+		{Layer: "tx", Ops: []Op{ent, reg(9, 10, 11, 2), {K: "regent", Txs: 1, Ent: 1, Nodes: nil, DSigner: 1, SigOK: true}, {K: "deregent", Txs: 1},
+			{K: "epoch", Epoch: 4}, {K: "deregent", Txs: 1}, {K: "epoch", Epoch: 5}, {K: "deregent", Txs: 1}}},
 		// a key of an expired node that is still held during debonding cannot be taken; after removal it can
 		{Layer: "tx", Ops: []Op{ent, {K: "regent", Txs: 2, Ent: 2, Nodes: []int{5}, DSigner: 2, SigOK: true}, reg(9, 10, 11, 2), {K: "epoch", Epoch: 4},
 			{K: "regnode", Txs: 5, Node: &NodeD{ID: 5, Ent: 2, Cons: 8, P2P: 17, VRF: 18, TLS: 19, Exp: 6}, Signers: []int{5, 17, 8, 19, 18}, SigOK: true},
